@@ -632,3 +632,89 @@ def _b_cache_history(seed, tier):
 
 Bounded('C14', 'cache_histories_on_real_files', _b_cache_history,
         doc='the loader contract assumed by the deductive cache units, exercised end to end (discovery, constructors, settings)')
+
+
+# ------------------------------------------------------------------ PickleOpacity._load_pickle_file: which entry of the file becomes which grid, in which unit
+def _pk_params(c):
+    W, NT, NP = c.int('W'), c.int('NT'), c.int('NP')
+    return dict(self=ObjSpec('PickleOpacity', _spec_dict=None, _wavenumber_grid=None, _temperature_grid=None, _pressure_grid=None, _xsec_grid=None,
+                             _resolution=None, _molecule_name=None, _min_pressure=None, _max_pressure=None, _min_temperature=None, _max_temperature=None),
+                filename='xsec/H2O_pokazatel.R15000.TauREx.pickle',
+                _file=dict(wno=c.array('wno', (W,)), t=c.array('t', (NT,)), p=c.array('p', (NP,)), xsecarr=c.array('xs', (NP, NT, W))))
+
+
+def _h_open(ex, st, args, kwargs, node):
+    st.trace.append(('ev', ('open', args[0], args[1] if len(args) > 1 else kwargs.get('mode'))))
+    return AbsObj('File', args[0], {})
+
+
+def _h_pickle_load(ex, st, args, kwargs, node):
+    """pickle.load(f): the dictionary stored in the file (the ghost parameter _file)"""
+    st.trace.append(('ev', ('pickle.load', args[0].ident if isinstance(args[0], AbsObj) else args[0])))
+    return st.env['_file']
+
+
+def _pk_post(c, v0, v1, r):
+    f = v0._file
+    s = v1.self
+    W, NT, NP = c.Len(f['wno']), c.Len(f['t']), c.Len(f['p'])
+    ev = [e for e in (c.trace or []) if e[0] in ('open', 'pickle.load')]
+    d = {'reads_the_named_file_once': [tuple(e) for e in ev] == [('open', v0.filename, 'rb'), ('pickle.load', v0.filename)] if c.mode != 'conc' else True,
+         'wavenumbers_are_the_wno_entry': c.And(c.Len(s._wavenumber_grid) == W, c.Forall(0, W, lambda i: s._wavenumber_grid[i] == f['wno'][i])),
+         'temperatures_are_the_t_entry': c.And(c.Len(s._temperature_grid) == NT, c.Forall(0, NT, lambda i: s._temperature_grid[i] == f['t'][i])),
+         'pressures_are_the_p_entry_converted_from_bar_to_pascal': c.And(c.Len(s._pressure_grid) == NP,
+                                                                           c.Forall(0, NP, lambda i: c.Eq(s._pressure_grid[i], f['p'][i] * 1e5))),
+         'molecule_named_after_the_file': s._molecule_name == 'H2O'}
+    if c.mode == 'sym':
+        heap = c.raw['state'].heap
+        d['cross_sections_are_the_xsecarr_entry'] = heap[v1.self.ref('_xsec_grid').id] is heap[heap[c.raw['env']['_file'].id].items['xsecarr'].id]
+        d['ranges_are_the_extremes_of_the_grids'] = c.And(
+            c.Forall(0, NP, lambda i: c.And(s._min_pressure <= s._pressure_grid[i], s._pressure_grid[i] <= s._max_pressure)),
+            c.Forall(0, NT, lambda i: c.And(s._min_temperature <= s._temperature_grid[i], s._temperature_grid[i] <= s._max_temperature)))
+    return d
+
+
+def _pk_native(c, p):
+    import os
+    import pickle
+    import tempfile
+    import numpy as np
+    from taurex.opacity.pickleopacity import PickleOpacity
+    f = p['_file']
+    here = os.path.dirname(os.path.dirname(os.path.abspath(__file__)))
+    base = os.path.join(here, '.cache', 'c14')
+    os.makedirs(os.path.join(base, 'xsec'), exist_ok=True)
+    path = os.path.join(base, p['filename'])
+    with open(path, 'wb') as fh:
+        pickle.dump({k: np.array(v, dtype=float) for k, v in f.items()}, fh)
+    try:
+        o = PickleOpacity.__new__(PickleOpacity)
+        for nm in ('debug', 'info', 'warning', 'error', 'critical'):
+            setattr(o, nm, lambda *a, **k: None)
+        o._load_pickle_file(path)
+    finally:
+        os.remove(path)
+    s = dict(p['self'], _wavenumber_grid=np.asarray(o._wavenumber_grid), _temperature_grid=np.asarray(o._temperature_grid),
+             _pressure_grid=np.asarray(o._pressure_grid), _xsec_grid=np.asarray(o._xsec_grid), _molecule_name=o._molecule_name,
+             _min_pressure=float(o._min_pressure), _max_pressure=float(o._max_pressure), _min_temperature=float(o._min_temperature),
+             _max_temperature=float(o._max_temperature))
+    return None, dict(p, self=s)
+
+
+def _pk_gen(rng):
+    W, NT, NP = rng.randint(2, 5), rng.randint(1, 3), rng.randint(1, 3)
+    return dict(W=W, NT=NT, NP=NP, wno=sorted(rng.uniform(100, 9000) for _ in range(W)), t=sorted(rng.uniform(100, 3000) for _ in range(NT)),
+                p=sorted(10 ** rng.uniform(-6, 2) for _ in range(NP)), xs=[[[10 ** rng.uniform(-30, -18) for _ in range(W)] for _ in range(NT)] for _ in range(NP)])
+
+
+PKL = Unit('C14', 'taurex.opacity.pickleopacity:PickleOpacity._load_pickle_file', _pk_params,
+           pre=lambda c, v: {'sizes': c.And(c.Len(v._file['wno']) >= 2, c.Len(v._file['t']) >= 1, c.Len(v._file['p']) >= 1)}, post=_pk_post,
+           abstract={'call:open': _h_open, 'call:load': _h_pickle_load, 'call:allocate_as_shared': lambda ex, st, args, kwargs, node: args[0],
+                     'call:sanitize_molecule_string': lambda ex, st, args, kwargs, node: args[0], 'call:Path': lambda ex, st, args, kwargs, node: AbsObj('Path', args[0], {'stem': args[0].split('/')[-1].rsplit('.', 1)[0]})},
+           frame_attrs=[('self', a) for a in ('_spec_dict', '_wavenumber_grid', '_temperature_grid', '_pressure_grid', '_xsec_grid', '_resolution',
+                                               '_molecule_name', '_min_pressure', '_max_pressure', '_min_temperature', '_max_temperature')],
+           inline=['clean_molecule_name', 'moleculeName'], native=_pk_native, gen=_pk_gen, bounds=[dict(W=2, NT=1, NP=1)], safety=('index',),
+           short='PickleOpacity._load_pickle_file',
+           doc='the pickle reader: wavenumbers, temperatures, cross-sections are the entries wno / t / xsecarr of the stored dictionary, pressures '
+               'the entry p converted from bar to pascal, ranges the extremes of the grids, the molecule named after the file (open / '
+               'pickle.load / allocate_as_shared / pathlib abstract)')
